@@ -7,26 +7,33 @@ import Hoot.Props.C08
 import Hoot.Props.C09
 import Hoot.Props.C10
 import Hoot.Props.C11
+import Hoot.Proofs.ExchangeAll
 
 /-! # C01 — the exchange outcome is independent of I/O segmentation and buffer sizes
 
-Claimed as `C01_spec_partial`: the schedule-independence of every phase of an exchange is a theorem
-"for every schedule" of that phase —
+Two layers.
 
-* request head: `C02_schedule` / `C02_render` (any sequence of buffer sizes ⇒ exactly `renderHead`),
-* request body: `C03_wire` (chunked: complete chunks carrying exactly the consumed input, terminator iff
-  finished) and `C04_total` / `C04_copy` (sized: verbatim, never more than N),
-* Expect handshake: `C11_undecided(_bare)`, `C11_continue`, `C11_refused_*`, `C11_late`,
-* response head: `C05_prefix` (nothing consumed, nothing decided before the head is complete) and
-  `C05_exact` (then exactly the head, exactly |H| bytes) — at `Call` level `C05_call_prefix_partial`,
-* response body: `C07` (chunked, every window/output schedule, ended iff the coding is consumed, next
-  message untouched) and `C08_len` (length-delimited),
-* successor states: `C09_edges`, verdict: `C10_step` / `C10_verdict`,
-* and the read-only queries interleaved anywhere change nothing: `C01_queries_pure` below.
+**Per phase** (each a theorem "for every schedule" of that phase): request head `C02_schedule` /
+`C02_render`; request body `C03_wire` (chunked) and `C04_total` / `C04_copy` (sized); Expect handshake
+`C11_*`; response head `C05_prefix` / `C05_exact` (at `Call` level `C05_call_prefix_partial`); response
+body `C07` (chunked) and `C08_len`; successor states `C09_edges`; verdict `C10_step` / `C10_verdict`;
+read-only queries interleaved anywhere change nothing: `C01_queries_pure` below.
 
-The single composed statement `observe (run cfg stream σ) = specOutcome cfg stream` over a whole-exchange
-driver is NOT proved yet; the cross-schedule comparison of whole exchanges is done on the implementation
-by the oracle (same exchange under 12 / 24 schedules incl. 1-byte arrivals and tiny buffers). -/
+**Composed** (second half of this file; `Proofs/ExchangeSend.lean`, `Proofs/Exchange.lean`,
+`Proofs/ExchangeAll.lean`): a whole-exchange driver `xRun` — the loop a caller writes around the `Flow`
+API, parameterised by an arbitrary schedule of (bytes presented, buffer size, give-up) triples — and the
+theorems `C01_exchange_any`, `C01_exchange_outcome`, `C01_exchange_independent`: every schedule that
+completes the exchange produces the one outcome `SendSpec` / `recvSpec`, consumes exactly the response
+message (plus the interim `100`), and ends in the state the status dictates; `C01_recv_live`: once
+everything has arrived no schedule can wedge the receive side.
+
+What the composed theorems do **not** cover (the claim stays `partial`; these are decided by the
+correspondence and the cross-schedule oracle on the implementation): close-delimited response bodies
+(no end on the wire), redirect chains / more than one exchange on the connection (the first exchange's
+`tail` is the next one's stream — `C01_exchange_outcome` gives exactly that hand-over — but the chain is
+not composed), responses that refuse an `Expect` request (there the outcome legitimately depends on
+whether the caller gave up first), malformed streams, 3xx heads with `Location` under the partial-redirect
+fallback (finding D10, owned by C05), and liveness of the send side. -/
 
 /-- the read-only queries of the API -/
 def Op.isQuery : Op → Bool
@@ -53,3 +60,303 @@ theorem C01_head_prefix (f : Flow) (hh : f.holder = .recvResponse) (h : Head) (h
   unfold stepRecvResponse
   simp [hh, C05_call_prefix_partial f.call h hw hs hc hn hnot n hlt]
   cases f; simp_all
+
+/-! ## The receive side of an exchange, composed (Proofs/Exchange.lean)
+
+`recvRun hack stream f0 σ` is the loop every caller writes: in `RecvResponse` present the unconsumed
+server bytes (any number `m` of them, per step) to `try_response` and proceed when a head is returned; in
+`RecvBody` present them to `read` with any output space `cap` and proceed when `can_proceed`. The
+observation is: server bytes consumed, the head returned, the body bytes delivered, faults.
+
+The exchange: a well-formed head `H` (not 100; at most 128 fields; with the partial-redirect fallback
+present — finding D10 — not a 3xx carrying `Location`), whose framing as computed by the code
+(`forResponse`) is `b0`: no body, a length-delimited body, or a well-formed chunked coding; followed by
+any bytes `tail` of a next message. Close-delimited bodies have no end on the wire and are excluded. -/
+
+/-- **C01 (receive side, every schedule).** Whatever the schedule: no call fails; never more is consumed
+    than the response message; the body delivered so far is a prefix of the payload; the head handed out
+    is the parsed `H` or not yet there; and a run that is not complete is still in a receive state. -/
+theorem C01_recv_any (hack : Bool) (H : Head) (b0 : BPos) (tail : Bytes) (f0 : Flow) (S : RecvSetup hack H b0 f0)
+    (σ : List IoStep) :
+    (recvRun hack (H.enc ++ b0.enc ++ tail) f0 σ).2.faults = 0 ∧
+    (recvRun hack (H.enc ++ b0.enc ++ tail) f0 σ).2.consumed ≤ H.enc.length + b0.enc.length ∧
+    (recvRun hack (H.enc ++ b0.enc ++ tail) f0 σ).2.body <+: b0.payload ∧
+    ((recvRun hack (H.enc ++ b0.enc ++ tail) f0 σ).2.head = none ∨
+     (recvRun hack (H.enc ++ b0.enc ++ tail) f0 σ).2.head = some H.parsed) := by
+  obtain ⟨h1, h2, h3, h4, _⟩ := recv_safe_of_inv H b0 tail f0 _ _ S.hst (recv_run_inv hack H b0 tail f0 S σ)
+  exact ⟨h1, h2, h3, h4⟩
+
+/-- **C01 (receive side, outcome).** Every schedule that completes the receive side produces the one
+    outcome `recvSpec`: exactly the response message consumed (the next message untouched), the parsed
+    head, the whole payload, no fault — and the successor state the status dictates. -/
+theorem C01_recv_outcome (hack : Bool) (H : Head) (b0 : BPos) (tail : Bytes) (f0 : Flow) (S : RecvSetup hack H b0 f0)
+    (σ : List IoStep) (hd : recvDone (recvRun hack (H.enc ++ b0.enc ++ tail) f0 σ).1 = true) :
+    (recvRun hack (H.enc ++ b0.enc ++ tail) f0 σ).2 = recvSpec H b0 ∧
+    (recvRun hack (H.enc ++ b0.enc ++ tail) f0 σ).1.st = terminalSt H ∧
+    (H.enc ++ b0.enc ++ tail).drop (recvRun hack (H.enc ++ b0.enc ++ tail) f0 σ).2.consumed = tail := by
+  obtain ⟨h1, h2⟩ := recvSpec_of_done H b0 tail f0 _ _ S.hst (recv_run_inv hack H b0 tail f0 S σ) hd
+  refine ⟨h1, h2, ?_⟩
+  rw [h1]
+  show (H.enc ++ b0.enc ++ tail).drop (H.enc.length + b0.enc.length) = tail
+  rw [← List.length_append, List.drop_left]
+
+/-- **C01 (receive side, independence).** Any two complete schedules — however the bytes were split,
+    whatever the buffer sizes — observe the same thing and end in the same state. -/
+theorem C01_recv_independent (hack : Bool) (H : Head) (b0 : BPos) (tail : Bytes) (f0 : Flow) (S : RecvSetup hack H b0 f0)
+    (σ₁ σ₂ : List IoStep)
+    (h1 : recvDone (recvRun hack (H.enc ++ b0.enc ++ tail) f0 σ₁).1 = true)
+    (h2 : recvDone (recvRun hack (H.enc ++ b0.enc ++ tail) f0 σ₂).1 = true) :
+    (recvRun hack (H.enc ++ b0.enc ++ tail) f0 σ₁).2 = (recvRun hack (H.enc ++ b0.enc ++ tail) f0 σ₂).2 ∧
+    (recvRun hack (H.enc ++ b0.enc ++ tail) f0 σ₁).1.st = (recvRun hack (H.enc ++ b0.enc ++ tail) f0 σ₂).1.st := by
+  obtain ⟨a1, a2, _⟩ := C01_recv_outcome hack H b0 tail f0 S σ₁ h1
+  obtain ⟨b1, b2, _⟩ := C01_recv_outcome hack H b0 tail f0 S σ₂ h2
+  exact ⟨by rw [a1, b1], by rw [a2, b2]⟩
+
+/-- **C01 (receive side, completion).** After any schedule whatsoever, once the whole message has
+    arrived, `|message| + 2` further calls with at least one byte of output space complete the receive
+    side: no schedule can wedge the flow. -/
+theorem C01_recv_live (hack : Bool) (H : Head) (b0 : BPos) (tail : Bytes) (f0 : Flow) (S : RecvSetup hack H b0 f0)
+    (σ full : List IoStep) (hfull : ∀ s ∈ full, H.enc.length + b0.enc.length ≤ s.m ∧ 1 ≤ s.cap)
+    (hlen : H.enc.length + b0.enc.length + 2 ≤ full.length) :
+    recvDone (recvRun hack (H.enc ++ b0.enc ++ tail) f0 (σ ++ full)).1 = true := by
+  unfold recvRun
+  rw [List.foldl_append]
+  have hinv := recv_run_inv hack H b0 tail f0 S σ
+  unfold recvRun at hinv
+  refine recv_live_aux hack H b0 tail f0 S (H.enc.length + b0.enc.length + 1) _ hinv ?_ full hfull hlen
+  right
+  unfold recvMeasure
+  split <;> omega
+
+/-! non-vacuity: a concrete exchange (`HTTP/1.1 200 OK`, `Content-Length: 5`, body `hello`, then the
+    start of a next message) meets `RecvSetup`; two very different schedules complete it (evaluated) -/
+def xField : Field := { name := [67,111,110,116,101,110,116,45,76,101,110,103,116,104], pre := [32], value := [53], post := [] }
+def xHead : Head := { ver := 1, d1 := 50, d2 := 48, d3 := 48, reason := some [79, 75], fields := [xField] }
+/-- the flow the API reaches for `GET http://a/` after the request head was written -/
+def xFlow : Flow := ((((Flow.new .get .h11 d10Call.req.uri []).step true .proceed).1.step true (.write 1000)).1.step true .proceed).1
+def xBody : BPos := .len [104, 101, 108, 108, 111]
+def xTail : Bytes := [72, 84, 84, 80]
+def isLen5 : Except Fault BodyReader → Bool | .ok (.len 5) => true | _ => false
+theorem isLen5_eq (x : Except Fault BodyReader) (h : isLen5 x = true) : x = .ok (.len 5) := by
+  unfold isLen5 at h; split at h <;> simp_all
+
+theorem xRespOk : RespOk true xHead xBody .get where
+  hw := Head.wf_of_wfb _ (by decide +kernel)
+  hs := by decide +kernel
+  hc := by decide +kernel
+  h100 := by decide +kernel
+  hn := by intro f hf; simp [xHead] at hf; subst hf; simp [xField]
+  hsafe := fun _ => Or.inl (by decide +kernel)
+  hb := trivial
+  hframe := isLen5_eq _ (by decide +kernel)
+
+example : RecvSetup true xHead xBody xFlow where
+  resp := (by decide +kernel : xFlow.call.req.method = .get) ▸ xRespOk
+  hst := by decide +kernel
+  hh := by decide +kernel
+  hnd := by decide +kernel
+
+/-- bytes arrive one at a time (nothing is consumed before the head is complete, so the window grows), one byte of output space -/
+def xOneByte : List IoStep := (List.range 60).map fun i => { m := i + 1, cap := 1 }
+def xAllAtOnce : List IoStep := [{ m := 1000, cap := 1000 }, { m := 1000, cap := 1000 }]
+#guard recvDone (recvRun true (xHead.enc ++ xBody.enc ++ xTail) xFlow xOneByte).1
+#guard recvDone (recvRun true (xHead.enc ++ xBody.enc ++ xTail) xFlow xAllAtOnce).1
+#guard (recvRun true (xHead.enc ++ xBody.enc ++ xTail) xFlow xOneByte).2 == (recvRun true (xHead.enc ++ xBody.enc ++ xTail) xFlow xAllAtOnce).2
+#guard (recvRun true (xHead.enc ++ xBody.enc ++ xTail) xFlow xAllAtOnce).2 == recvSpec xHead xBody
+
+/-! ## A whole exchange, composed (Proofs/ExchangeSend.lean, Proofs/ExchangeAll.lean)
+
+`xRun hack P stream f0 σ` runs the whole caller loop from `Prepare`: proceed; write the request head into
+output buffers of the scheduled sizes (a buffer too small for the next line is the repeatable
+`OutputOverflow`, nothing emitted); with a body and `Expect: 100-continue`, wait in `Await100` — present
+what has arrived to `try_read_100` while the flow says keep waiting, proceed when it says stop or when
+the caller's timer fires (`giveUp`, any time); in `SendBody` offer the payload `P` slice by slice
+(`m + 1` pending bytes per call, the empty slice only when `P` is exhausted) into buffers of the scheduled
+sizes; proceed into `RecvResponse`; then the receive loop above. The request is bodiless, or has
+`Content-Length: |P|`, or is chunked (`SendSetup`); the server stream is the response message, preceded by
+a bare interim `100` exactly when the request carries `Expect` (`XSetup`; whether the caller sees the 100
+in time — in `Await100` — or late — in `RecvResponse` — is part of the schedule). -/
+
+theorem pend_safe (f0 : Flow) (pre : Bytes) (aw : Bool) (o : RecvObs) (h : Pend f0 pre aw o) :
+    o.faults = 0 ∧ o.consumed ≤ pre.length ∧ o.body = [] ∧ o.head = none := by
+  rcases h with ⟨_, _, rfl⟩ | ⟨_, rfl⟩
+  · exact ⟨rfl, Nat.zero_le _, rfl, rfl⟩
+  · exact ⟨rfl, by simp [RecvObs.shift], rfl, rfl⟩
+
+/-- **C01 (whole exchange, every schedule).** Whatever the schedule: what is on the wire is a prefix of
+    the rendered head, or the whole head followed by body bytes; no more of the payload is accepted than
+    there is; and the receive side is within its bounds (nothing consumed beyond the interim response and
+    the message, body a prefix of the payload, no fault). -/
+theorem C01_exchange_any (hack : Bool) (f0 : Flow) (r : AReq) (wr0 : BodyWriter) (P : Bytes) (I H : Head) (b0 : BPos)
+    (tail pre : Bytes) (X : XSetup hack f0 r wr0 P I H b0 pre) (σ : List IoStep) :
+    ((xRun hack P (pre ++ (H.enc ++ b0.enc ++ tail)) f0 σ).2.1.wire <+: renderHead r ∨
+      ∃ bw, (xRun hack P (pre ++ (H.enc ++ b0.enc ++ tail)) f0 σ).2.1.wire = renderHead r ++ bw) ∧
+    (xRun hack P (pre ++ (H.enc ++ b0.enc ++ tail)) f0 σ).2.1.off ≤ P.length ∧
+    (xRun hack P (pre ++ (H.enc ++ b0.enc ++ tail)) f0 σ).2.2.faults = 0 ∧
+    (xRun hack P (pre ++ (H.enc ++ b0.enc ++ tail)) f0 σ).2.2.consumed ≤ pre.length + (H.enc.length + b0.enc.length) ∧
+    (xRun hack P (pre ++ (H.enc ++ b0.enc ++ tail)) f0 σ).2.2.body <+: b0.payload := by
+  rcases x_run_inv hack f0 r wr0 P I H b0 tail pre X σ with
+    ⟨hAB, ho⟩ | ⟨_, _, hA, hp⟩ | ⟨hC, hp⟩ | ⟨_, _, _, _, ho, _, _, hspec, hoff⟩ | ⟨hw, hoff, f1, o', S, hsh, hri⟩
+  · have hw : (xRun hack P (pre ++ (H.enc ++ b0.enc ++ tail)) f0 σ).2.1.wire <+: renderHead r ∧
+        (xRun hack P (pre ++ (H.enc ++ b0.enc ++ tail)) f0 σ).2.1.off = 0 := by
+      rcases hAB with ⟨_, h⟩ | hB
+      · rw [h]; exact ⟨List.nil_prefix, rfl⟩
+      · exact sendB_wire f0 r wr0 X.send.hne _ _ hB
+    refine ⟨Or.inl hw.1, by omega, ?_, ?_, ?_⟩ <;> rw [ho]
+    · exact Nat.zero_le _
+    · exact List.nil_prefix
+  · obtain ⟨g1, g2, g3, _⟩ := pend_safe f0 pre _ _ hp
+    obtain ⟨_, _, _, _, _, _, _, _, hw, hoff⟩ := hA
+    exact ⟨Or.inr ⟨[], by rw [hw]; simp⟩, by omega, g1, by omega, by rw [g3]; exact List.nil_prefix⟩
+  · obtain ⟨g1, g2, g3, _⟩ := pend_safe f0 pre _ _ hp
+    obtain ⟨w1, w2⟩ := sendC_wire f0 r wr0 P _ _ hC
+    exact ⟨Or.inr w1, w2, g1, by omega, by rw [g3]; exact List.nil_prefix⟩
+  · refine ⟨Or.inr (sendSpec_head r wr0 P _ hspec), by omega, ?_, ?_, ?_⟩ <;> rw [ho]
+    · exact Nat.zero_le _
+    · exact List.nil_prefix
+  · obtain ⟨h1, h2, h3, _, _⟩ := recv_safe_of_inv H b0 tail f1 _ _ S.hst hri
+    refine ⟨Or.inr (sendSpec_head r wr0 P _ hw), by omega, ?_, ?_, ?_⟩ <;> rw [hsh]
+    · exact h1
+    · show o'.consumed + pre.length ≤ _; omega
+    · exact h3
+
+/-- **C01 (whole exchange, outcome).** Every schedule that completes the exchange has put on the wire
+    exactly the rendered head followed by nothing / the payload verbatim / a valid chunked coding (complete
+    non-empty chunks, one terminator) of exactly the payload (`SendSpec`); has accepted the whole payload;
+    has consumed exactly the interim response (if any) and the response message, so that the next message
+    is what remains; has handed out the parsed final head — never the interim one — and the whole
+    response payload; and has ended in the state the status dictates. -/
+theorem C01_exchange_outcome (hack : Bool) (f0 : Flow) (r : AReq) (wr0 : BodyWriter) (P : Bytes) (I H : Head) (b0 : BPos)
+    (tail pre : Bytes) (X : XSetup hack f0 r wr0 P I H b0 pre) (σ : List IoStep)
+    (hd : recvDone (xRun hack P (pre ++ (H.enc ++ b0.enc ++ tail)) f0 σ).1 = true) :
+    SendSpec r wr0 P (xRun hack P (pre ++ (H.enc ++ b0.enc ++ tail)) f0 σ).2.1.wire ∧
+    (xRun hack P (pre ++ (H.enc ++ b0.enc ++ tail)) f0 σ).2.1.off = P.length ∧
+    (xRun hack P (pre ++ (H.enc ++ b0.enc ++ tail)) f0 σ).2.2 = (recvSpec H b0).shift pre.length ∧
+    (xRun hack P (pre ++ (H.enc ++ b0.enc ++ tail)) f0 σ).1.st = terminalSt H ∧
+    (pre ++ (H.enc ++ b0.enc ++ tail)).drop (xRun hack P (pre ++ (H.enc ++ b0.enc ++ tail)) f0 σ).2.2.consumed = tail := by
+  rcases x_run_inv hack f0 r wr0 P I H b0 tail pre X σ with
+    ⟨hAB, _⟩ | ⟨hst, _⟩ | ⟨hC, _⟩ | ⟨hst, _⟩ | ⟨hw, hoff, f1, o', S, hsh, hri⟩
+  · have hst : (xRun hack P (pre ++ (H.enc ++ b0.enc ++ tail)) f0 σ).1.st = .prepare ∨
+        (xRun hack P (pre ++ (H.enc ++ b0.enc ++ tail)) f0 σ).1.st = .sendRequest := by
+      rcases hAB with ⟨h, _⟩ | hB
+      · left; rw [h]; exact X.send.hst
+      · right; exact hB.1
+    rcases hst with e | e <;> (unfold recvDone at hd; rw [e] at hd; simp at hd)
+  · unfold recvDone at hd; rw [hst] at hd; simp at hd
+  · unfold recvDone at hd; rw [hC.1] at hd; simp at hd
+  · unfold recvDone at hd; rw [hst] at hd; simp at hd
+  · obtain ⟨h1, h2⟩ := recvSpec_of_done H b0 tail f1 _ _ S.hst hri hd
+    refine ⟨hw, hoff, by rw [hsh, h1], h2, ?_⟩
+    rw [hsh, h1]
+    show (pre ++ (H.enc ++ b0.enc ++ tail)).drop (H.enc.length + b0.enc.length + pre.length) = tail
+    rw [drop_shift, ← List.length_append, List.drop_left]
+
+/-- for a request without body or with `Content-Length`, `SendSpec` determines the wire bytes -/
+theorem SendSpec_unique (r : AReq) (wr0 : BodyWriter) (P w₁ w₂ : Bytes) (hm : wr0.mode ≠ .chunked)
+    (h1 : SendSpec r wr0 P w₁) (h2 : SendSpec r wr0 P w₂) : w₁ = w₂ := by
+  cases hmode : wr0.mode <;> simp only [SendSpec, hmode] at h1 h2
+  · rw [h1, h2]
+  · rw [h1, h2]
+  · exact absurd hmode hm
+
+/-- **C01 (whole exchange, independence).** Any two complete schedules — whatever the buffer sizes,
+    however the bytes arrived, whether the `100 Continue` was seen in time or late — agree on everything
+    observed of the response and on the terminal state; both have sent the rendered head and delivered
+    exactly the payload (`SendSpec`), and — bodiless or `Content-Length` — byte-identical request bytes.
+    (For a chunked request body the chunk boundaries follow the buffers; the payload coded is the same.) -/
+theorem C01_exchange_independent (hack : Bool) (f0 : Flow) (r : AReq) (wr0 : BodyWriter) (P : Bytes) (I H : Head) (b0 : BPos)
+    (tail pre : Bytes) (X : XSetup hack f0 r wr0 P I H b0 pre) (σ₁ σ₂ : List IoStep)
+    (h1 : recvDone (xRun hack P (pre ++ (H.enc ++ b0.enc ++ tail)) f0 σ₁).1 = true)
+    (h2 : recvDone (xRun hack P (pre ++ (H.enc ++ b0.enc ++ tail)) f0 σ₂).1 = true) :
+    (xRun hack P (pre ++ (H.enc ++ b0.enc ++ tail)) f0 σ₁).2.2 = (xRun hack P (pre ++ (H.enc ++ b0.enc ++ tail)) f0 σ₂).2.2 ∧
+    (xRun hack P (pre ++ (H.enc ++ b0.enc ++ tail)) f0 σ₁).1.st = (xRun hack P (pre ++ (H.enc ++ b0.enc ++ tail)) f0 σ₂).1.st ∧
+    (wr0.mode ≠ .chunked →
+      (xRun hack P (pre ++ (H.enc ++ b0.enc ++ tail)) f0 σ₁).2.1 = (xRun hack P (pre ++ (H.enc ++ b0.enc ++ tail)) f0 σ₂).2.1) := by
+  obtain ⟨a1, a2, a3, a4, _⟩ := C01_exchange_outcome hack f0 r wr0 P I H b0 tail pre X σ₁ h1
+  obtain ⟨b1, b2, b3, b4, _⟩ := C01_exchange_outcome hack f0 r wr0 P I H b0 tail pre X σ₂ h2
+  refine ⟨by rw [a3, b3], by rw [a4, b4], fun hm => ?_⟩
+  have hw := SendSpec_unique r wr0 P _ _ hm a1 b1
+  cases hx : (xRun hack P (pre ++ (H.enc ++ b0.enc ++ tail)) f0 σ₁).2.1 with
+  | mk w1 o1 =>
+    cases hy : (xRun hack P (pre ++ (H.enc ++ b0.enc ++ tail)) f0 σ₂).2.1 with
+    | mk w2 o2 =>
+      rw [hx] at hw a2; rw [hy] at hw b2
+      simp only at hw a2 b2
+      rw [hw, a2, b2]
+
+/-- non-vacuity: `GET http://a/` from a fresh flow, answered by the example response; a schedule of tiny
+    buffers and one-byte arrivals and a schedule of huge ones both complete it with the same outcome -/
+def xNew : Flow := Flow.new .get .h11 d10Call.req.uri []
+def isOkUnit : Except Fault Unit → Bool | .ok () => true | _ => false
+theorem isOkUnit_eq (x : Except Fault Unit) (h : isOkUnit x = true) : x = .ok () := by
+  unfold isOkUnit at h; split at h <;> simp_all
+theorem c11Interim : Interim c11Head := ⟨Head.wf_of_wfb _ (by decide +kernel), rfl, by decide +kernel⟩
+
+example : XSetup true xNew xNew.call.analyzeRequest.1.req BodyWriter.newNone [] c11Head xHead xBody [] where
+  send := sendSetup_of_new .get .h11 d10Call.req.uri [] rfl (isOkUnit_eq _ (by decide +kernel))
+  hnd := by decide +kernel
+  resp := xRespOk
+  int := c11Interim
+  hpre := Or.inr ⟨by decide +kernel, rfl⟩
+
+def xStream : Bytes := xHead.enc ++ xBody.enc ++ xTail
+def xTiny : List IoStep := (List.range 90).map fun i => { m := i, cap := 17 + i % 5 }
+def xHuge : List IoStep := List.replicate 8 { m := 1000, cap := 1000 }
+#guard recvDone (xRun true [] xStream xNew xTiny).1
+#guard recvDone (xRun true [] xStream xNew xHuge).1
+#guard (xRun true [] xStream xNew xTiny).2 == (xRun true [] xStream xNew xHuge).2
+#guard (xRun true [] xStream xNew xHuge).2.1.wire == "GET / HTTP/1.1\r\nhost: a\r\n\r\n".toUTF8.toList
+
+/-- non-vacuity with a body: `POST http://a/` with `Content-Length: 3`, the same request chunked, and with
+    `Expect: 100-continue` (the server's `100 Continue` in front of the response) -/
+def xPayload : Bytes := [120, 121, 122]
+def xPostCL : Flow := Flow.new .post .h11 d10Call.req.uri [{ name := "content-length", value := [51] }]
+def xPostCh : Flow := Flow.new .post .h11 d10Call.req.uri []
+def xPostEx : Flow := Flow.new .post .h11 d10Call.req.uri [{ name := "expect", value := "100-continue".toUTF8.toList }]
+theorem xRespOkPost : RespOk true xHead xBody .post := { xRespOk with hframe := isLen5_eq _ (by decide +kernel) }
+def isChunkedW (w : BodyWriter) : Bool := w == BodyWriter.newChunked
+def isSized3 (w : BodyWriter) : Bool := w == BodyWriter.newSized 3
+
+example : XSetup true xPostCL xPostCL.call.analyzeRequest.1.req (BodyWriter.newSized xPayload.length) xPayload c11Head xHead xBody [] where
+  send := sendSetup_of_new_body .post .h11 d10Call.req.uri _ xPayload _ rfl
+    (isOkUnit_eq _ (by decide +kernel)) (by decide +kernel) (Or.inr rfl)
+  hnd := by decide +kernel
+  resp := xRespOkPost
+  int := c11Interim
+  hpre := Or.inr ⟨by decide +kernel, rfl⟩
+
+example : XSetup true xPostCh xPostCh.call.analyzeRequest.1.req BodyWriter.newChunked xPayload c11Head xHead xBody [] where
+  send := sendSetup_of_new_body .post .h11 d10Call.req.uri _ xPayload _ rfl
+    (isOkUnit_eq _ (by decide +kernel)) (by decide +kernel) (Or.inl rfl)
+  hnd := by decide +kernel
+  resp := xRespOkPost
+  int := c11Interim
+  hpre := Or.inr ⟨by decide +kernel, rfl⟩
+
+example : XSetup true xPostEx xPostEx.call.analyzeRequest.1.req BodyWriter.newChunked xPayload c11Head xHead xBody c11Head.enc where
+  send := sendSetup_of_new_body .post .h11 d10Call.req.uri _ xPayload _ rfl
+    (isOkUnit_eq _ (by decide +kernel)) (by decide +kernel) (Or.inl rfl)
+  hnd := by decide +kernel
+  resp := xRespOkPost
+  int := c11Interim
+  hpre := Or.inl ⟨by decide +kernel, rfl⟩
+
+#guard recvDone (xRun true xPayload xStream xPostCL xTiny).1
+#guard (xRun true xPayload xStream xPostCL xTiny).2 == (xRun true xPayload xStream xPostCL xHuge).2
+def xSmall : List IoStep := (List.range 90).map fun i => { m := i, cap := 32 + i % 5 }
+#guard recvDone (xRun true xPayload xStream xPostCh xSmall).1
+#guard recvDone (xRun true xPayload xStream xPostCh xHuge).1
+#guard (xRun true xPayload xStream xPostCh xSmall).2.2 == (xRun true xPayload xStream xPostCh xHuge).2.2
+#guard (xRun true xPayload xStream xPostCh xHuge).2.1.wire ==
+  "POST / HTTP/1.1\r\nhost: a\r\ntransfer-encoding: chunked\r\n\r\n3\r\nxyz\r\n0\r\n\r\n".toUTF8.toList
+-- Expect: the caller sees the 100 in time (xHuge), gives up at once (xEarly: the 100 is skipped later in
+-- RecvResponse), or gets it byte by byte and gives up in the middle (xMid)
+def xStreamEx : Bytes := c11Head.enc ++ xStream
+def xEarly : List IoStep := List.replicate 3 { m := 0, cap := 1000, giveUp := true } ++ List.replicate 8 { m := 1000, cap := 1000 }
+def xMid : List IoStep := (List.range 120).map fun i => { m := i / 2, cap := 40, giveUp := i == 20 }
+#guard recvDone (xRun true xPayload xStreamEx xPostEx xHuge).1
+#guard recvDone (xRun true xPayload xStreamEx xPostEx xEarly).1
+#guard recvDone (xRun true xPayload xStreamEx xPostEx xMid).1
+#guard (xRun true xPayload xStreamEx xPostEx xHuge).2.2 == (xRun true xPayload xStreamEx xPostEx xEarly).2.2
+#guard (xRun true xPayload xStreamEx xPostEx xHuge).2.2 == (xRun true xPayload xStreamEx xPostEx xMid).2.2
+#guard (xRun true xPayload xStreamEx xPostEx xHuge).2.2.consumed == c11Head.enc.length + xHead.enc.length + 5
